@@ -45,8 +45,9 @@ def gen_F(rng, n):
         norm = float(rng.uniform(1.1, 2.5))
         bounded = False
     v = v / np.abs(v).sum() * norm
+    klass = "%s/%s" % (klass, "bounded" if bounded else "unbounded")
     # keep both extreme coefficients above 1e-3 in most cases (the stated family)
-    tiny_ext = rng.random() < 0.1
+    tiny_ext = rng.random() < 0.16
     if not tiny_ext:
         for i in (0, -1):
             if abs(v[i]) < 1.5e-3:
@@ -55,11 +56,36 @@ def gen_F(rng, n):
             v = v / np.abs(v).sum() * 0.9
     else:
         v[0] *= 1e-5
+        z = rng.random()
+        if z < 0.6:
+            # exactly-zero extreme coefficients (one end, both ends, two at one end) and exact interior zeros: F is still a
+            # vector of length n+1; whatever the completion does, it must raise CompletionError or return a G of F's shape
+            klass += "/exact-zero-ends"
+            which = int(rng.integers(0, 5))
+            if which in (0, 2):
+                v[0] = 0.0
+            if which in (1, 2):
+                v[-1] = 0.0
+            if which == 3 and n >= 3:
+                v[0] = v[1] = 0.0
+            if which == 4 and n >= 3:
+                v[-1] = v[-2] = 0.0
+            if n >= 4 and rng.random() < 0.3:
+                v[int(rng.integers(1, n))] = 0.0
+            if np.abs(v).sum() == 0:
+                v[n // 2] = 0.5
     fam = (n <= 12) and (np.abs(v).sum() <= 0.9) and abs(v[0]) >= 1e-3 and abs(v[-1]) >= 1e-3
-    return [float(x) for x in v], "%s/%s" % (klass, "bounded" if bounded else "unbounded"), bool(fam)
+    return [float(x) for x in v], klass, bool(fam)
 
 
 def one(ctx, C, LP, Fc, klass, fam, seedv, tol):
+    out = _one(ctx, C, LP, Fc, klass, fam, seedv, tol)
+    if out and out[0] == "ok":
+        core.poison(out[1])      # the caller owns the returned element
+    return out
+
+
+def _one(ctx, C, LP, Fc, klass, fam, seedv, tol):
     drv = ctx.driver()
     n = len(Fc) - 1
     rec = {}
@@ -94,8 +120,9 @@ def one(ctx, C, LP, Fc, klass, fam, seedv, tol):
             replay["root_signature"] = sig
             ctx.violation("c04:family-raises:%s:%s" % (out[0].split(":")[-1], sig),
                           "completion raises (%s) for F in the stated family (n<=12, 1-norm<=0.9, extremes>=1e-3)" % out[0], replay)
-        elif out[0].startswith("other:"):
-            ctx.count("non-documented-exception")   # C19's business
+        if out[0].startswith("other:"):
+            # "completion either raises CompletionError or returns ...": any other exception class breaks C04 as well as C19
+            ctx.violation("c04:other-exception:%s" % out[0].split(":")[1], "completion ends in %s (%s) instead of CompletionError or a result" % (out[0].split(":")[1], out[1]), replay)
         return out
     g = out[1]
     I, X = g.IPoly, g.XPoly
